@@ -75,6 +75,14 @@ fn main() {
   let pid = args[1].to_uppercase();
   let prop = match props().into_iter().find(|p| p.id == pid) { Some(p) => p, None => { eprintln!("unknown property {}", pid); std::process::exit(2) } };
   match args[2].as_str() {
+    // abortprobe <probe> <hex of the input>: runs one consuming conversion in THIS process; the parent (c05 entry 42) looks at how the process ended,
+    // because a stack overflow or abort cannot be caught by catch_unwind
+    "abortprobe" => {
+      let probe: i64 = args[3].parse().unwrap_or(0);
+      let bytes: Vec<u8> = (0..args.get(4).map_or(0, |h| h.len() / 2)).map(|i| u8::from_str_radix(&args[4][2 * i..2 * i + 2], 16).unwrap_or(0)).collect();
+      c05::abort_probe(probe, &bytes);
+      std::process::exit(0);
+    }
     "gen" => {
       let seed: u64 = args[3].parse().unwrap_or(1);
       let thorough = args.get(4).map(|t| t == "thorough").unwrap_or(false);
